@@ -13,4 +13,6 @@ CONSTANTS
   RunLens = {1}
   Deltas = {}
   Mirror = FALSE
+  StepGuard = FALSE
+  Skews = {0}
 CHECK_DEADLOCK FALSE
